@@ -215,6 +215,144 @@ async fn one_config(a: Args, idx: usize, m: refimpl::ss::Method, users: usize) -
     rep
 }
 
+/// The client's side of the property at node level: a REAL client (its local SOCKS5-UDP port, its binding table, its
+/// reply task) is answered by a reference server that plays scripted histories of (server session, packet id): ids in and
+/// out of order, copies, and - a server that restarted or rebuilt the association - a SECOND and THIRD server session
+/// whose ids start at 1 again while copies of the earlier sessions' datagrams keep arriving. The application socket logs
+/// what comes out of the client; the log is compared with one accepted-set per server session.
+async fn client_config(a: Args, idx: usize, m: refimpl::ss::Method) -> Report {
+    use super::c02::{socks5_udp, socks5_udp_parse};
+    let mut rep = Report::new();
+    let mut rng = Rng::derive(a.seed, 0xC11F, idx as u64);
+    let cfg = Cfg::random(&mut rng, Proto::Ss(m), 0);
+    let cfgname = format!("{}|client", m.name());
+    // the reference "server": one UDP socket
+    let Ok(srv) = UdpSocket::bind("127.0.0.1:0").await else { return rep };
+    let sport = srv.local_addr().unwrap().port();
+    let dir = work_dir(&a, &format!("c11c-{idx}"));
+    let mut d = Deploy::new(cfg.clone(), Transport::Tcp, true, 2, &dir);
+    d.server_port = sport;
+    d.client_mode = "tcp_and_udp".into();
+    let (dj, ddir, t, lvl, cport) = (d.client_json(), d.dir.clone(), format!("c11c-{idx}"), d.log_level.clone(), d.client_port);
+    let node = tokio::task::spawn_blocking(move || {
+        let mut n = start_node("client", &dj, &ddir, &t, 2, &lvl, None, None).map_err(|e| e.to_string())?;
+        wait_ready(&mut n, Some(cport), Some(cport), Duration::from_secs(15))?;
+        Ok::<Node, String>(n)
+    })
+    .await
+    .unwrap();
+    let mut node = match node {
+        Ok(n) => n,
+        Err(e) => {
+            rep.inconclusive(format!("{cfgname}: client does not start: {}", e.lines().next().unwrap_or("")));
+            return rep;
+        }
+    };
+    let keys = cfg.ref_client_keys();
+    let psk = cfg.ref_server_psk();
+    let n_hist = if a.thorough { 12 } else { 4 };
+    for h in 0..n_hist {
+        let Ok(app) = UdpSocket::bind("127.0.0.1:0").await else { continue };
+        // the application's first datagram opens the binding; the reference server learns session id and address from it
+        let _ = app.send_to(&socks5_udp("127.0.0.1", 5300 + h as u16, b"open the binding"), ("127.0.0.1", d.client_port)).await;
+        let mut b = vec![0u8; 70000];
+        let Ok(Ok((n, client_addr))) = tokio::time::timeout(Duration::from_secs(5), srv.recv_from(&mut b)).await else {
+            rep.inconclusive(format!("{cfgname}: the client did not send the application's datagram to the server"));
+            continue;
+        };
+        let Ok((req, _)) = refimpl::ss::s22_udp_server_decode(m, &psk, &[], &b[..n]) else {
+            rep.inconclusive(format!("{cfgname}: the reference server cannot read the client's datagram (judged by C03)"));
+            continue;
+        };
+        let csid = req.session_id;
+        let n_sessions = 1 + h % 3;
+        let ssids: Vec<u64> = (0..n_sessions).map(|_| rng.next_u64()).collect();
+        // the script: (server session index, packet id)
+        let mut script: Vec<(usize, u64)> = Vec::new();
+        for sess in 0..n_sessions {
+            let ids: Vec<u64> = if h % 2 == 0 { (1..=8).collect() } else { history(&mut rng, h as u64).into_iter().take(30).collect() };
+            for id in ids {
+                script.push((sess, id));
+                if rng.chance(1, 3) {
+                    script.push((sess, id)); // the path duplicates
+                }
+                if sess > 0 && rng.chance(1, 3) {
+                    // a copy of a datagram of an EARLIER server session, captured and re-sent
+                    let k = rng.below(script.len() as u64) as usize;
+                    let c = script[k];
+                    script.push(c);
+                }
+            }
+        }
+        // copies of everything so far, then fresh ids of the last session
+        let copies: Vec<(usize, u64)> = (0..6).map(|_| script[rng.below(script.len() as u64) as usize]).collect();
+        script.extend(copies);
+        let top = script.iter().filter(|(s, _)| *s == n_sessions - 1).map(|(_, i)| *i).max().unwrap_or(0);
+        let fresh: Vec<(usize, u64)> = (1..=4).map(|k| (n_sessions - 1, top + k)).collect();
+        script.extend(fresh.iter().cloned());
+        let mut models: Vec<Model> = (0..n_sessions).map(|_| Model::default()).collect();
+        let mut expect: HashMap<(usize, u64), u32> = HashMap::new();
+        let now = std::time::SystemTime::now().duration_since(std::time::UNIX_EPOCH).unwrap().as_secs();
+        for (sess, id) in script.iter() {
+            if models[*sess].offer(*id) {
+                *expect.entry((*sess, *id)).or_insert(0) += 1;
+            }
+            let mut payload = (*sess as u64).to_be_bytes().to_vec();
+            payload.extend_from_slice(&id.to_be_bytes());
+            payload.extend_from_slice(b"answer");
+            let p = refimpl::ss::S22UdpPacket { session_id: ssids[*sess], packet_id: *id, type_byte: 1, timestamp: now, client_session_id: Some(csid), padding: vec![], addr: refimpl::addr::Addr::V4([127, 0, 0, 1], 5300 + h as u16), payload };
+            let w = refimpl::ss::s22_udp_server_encode(m, &keys.psk, &p, &rng.arr());
+            let _ = srv.send_to(&w, client_addr).await;
+            tokio::time::sleep(Duration::from_millis(3)).await;
+            rep.evaluations += 1;
+        }
+        // what came out of the client
+        let mut got: HashMap<(usize, u64), u32> = HashMap::new();
+        while let Ok(Ok((n, _))) = tokio::time::timeout(Duration::from_millis(400), app.recv_from(&mut b)).await {
+            if let Some((_, _, pl)) = socks5_udp_parse(&b[..n]) {
+                if pl.len() >= 16 {
+                    let k = (u64::from_be_bytes(pl[..8].try_into().unwrap()) as usize, u64::from_be_bytes(pl[8..16].try_into().unwrap()));
+                    *got.entry(k).or_insert(0) += 1;
+                }
+            }
+        }
+        rep.mon("client:answers_delivered_to_the_application", got.values().map(|c| *c as u64).sum());
+        rep.mon("client:reply_histories_compared_with_the_model", 1);
+        rep.mon(&format!("client:histories_with_{}_server_sessions", n_sessions), 1);
+        let w = |extra: serde_json::Value| json!({"seed": a.seed, "config": cfgname, "server_sessions": n_sessions, "script": script.iter().map(|(s, i)| format!("{s}:{i}")).collect::<Vec<_>>(), "detail": extra, "client_log": node.log_tail(4)});
+        let twice: Vec<String> = got.iter().filter(|(_, c)| **c > 1).map(|((s, i), c)| format!("{s}:{i} x{c}")).collect();
+        if !twice.is_empty() {
+            rep.violation(format!("C11|nodes|{}|answer-delivered-to-the-application-more-than-once", cfgname), format!("{cfgname}: answers (server session:packet id) {:?} came out of the client more than once", twice), w(json!({"twice": twice})));
+        }
+        let stale: Vec<String> = got.keys().filter(|k| !expect.contains_key(k)).map(|(s, i)| format!("{s}:{i}")).collect();
+        if !stale.is_empty() {
+            rep.violation(format!("C11|nodes|{}|stale-answer-delivered", cfgname), format!("{cfgname}: answers {:?} lie outside their session's window and were delivered", stale), w(json!({"ids": stale})));
+        }
+        let missing: Vec<(usize, u64)> = expect.keys().filter(|k| !got.contains_key(k)).cloned().collect();
+        if !missing.is_empty() {
+            let fresh_missing = fresh.iter().filter(|k| missing.contains(k)).count();
+            // a whole server session whose acceptable answers are all gone, or all fresh ids gone: not loopback loss
+            let dead_sessions: Vec<usize> = (0..n_sessions).filter(|s| expect.keys().filter(|(x, _)| x == s).count() >= 3 && expect.keys().filter(|(x, _)| x == s).all(|k| missing.contains(k))).collect();
+            if fresh_missing == fresh.len() {
+                rep.violation(format!("C11|nodes|{}|fresh-answers-after-refusals-not-delivered", cfgname), format!("{cfgname}: after duplicates and copies were refused, none of the fresh answers {:?} was delivered", fresh), w(json!({"missing": missing.len()})));
+            } else if !dead_sessions.is_empty() {
+                rep.violation(format!("C11|nodes|{}|answers-of-a-new-server-session-not-delivered", cfgname), format!("{cfgname}: none of the acceptable answers of server session(s) {:?} was delivered", dead_sessions), w(json!({"missing": missing.len()})));
+            } else if missing.len() > 2 {
+                rep.violation(format!("C11|nodes|{}|acceptable-answers-not-delivered", cfgname), format!("{cfgname}: {} answers the model accepts were not delivered", missing.len()), w(json!({"missing": missing.iter().map(|(s, i)| format!("{s}:{i}")).collect::<Vec<_>>()})));
+            } else {
+                rep.mon("sporadic_losses_not_judged", missing.len() as u64);
+            }
+        }
+        rep.case(&("client", idx, h), !got.is_empty());
+    }
+    if !node.alive() {
+        rep.violation(format!("C11|nodes|{}|client-exited", cfgname), "client exited".to_string(), json!({"log": node.log_tail(8)}));
+    }
+    drop(node);
+    let _ = std::fs::remove_dir_all(&dir);
+    rep
+}
+
 pub async fn run(a: &Args) -> Report {
     use refimpl::ss::Method as M;
     let mut m: Vec<(M, usize)> = vec![(M::B3Aes128Gcm, 0), (M::B3ChaCha20Poly1305, 0)];
@@ -227,6 +365,11 @@ pub async fn run(a: &Args) -> Report {
     for (idx, (p, u)) in m.into_iter().enumerate() {
         let a = a.clone();
         hs.push(tokio::spawn(async move { one_config(a, idx, p, u).await }));
+    }
+    let cm: Vec<M> = if a.thorough { vec![M::B3Aes128Gcm, M::B3Aes256Gcm, M::B3ChaCha20Poly1305, M::B3ChaCha8Poly1305] } else if a.seed % 2 == 0 { vec![M::B3Aes256Gcm, M::B3ChaCha8Poly1305] } else { vec![M::B3Aes128Gcm, M::B3ChaCha20Poly1305] };
+    for (idx, p) in cm.into_iter().enumerate() {
+        let a = a.clone();
+        hs.push(tokio::spawn(async move { client_config(a, idx, p).await }));
     }
     let mut rep = Report::new();
     for h in hs {
